@@ -57,10 +57,25 @@ def run(ctx: Ctx):
     PM = masks[0].targets[0].id if masks and isinstance(masks[0].targets[0], ast.Name) else None
     ce_assign = [n for n in own_nodes(f.node) if isinstance(n, ast.Assign) and ce and any(x is ce[0] for x in ast.walk(n.value))]
     LV = ce_assign[0].targets[0].id if ce_assign and isinstance(ce_assign[0].targets[0], ast.Name) else None
-    txt = [u(n) for n in own_nodes(f.node) if isinstance(n, ast.Assign)]
-    col.ob("G16", "S2", f"{where}::average-over-target-set",
-           PM is not None and LV is not None and f"{LV} = {LV}.masked_fill({PM}, 0.0).sum(2)" in txt
-           and f"{LV} = {LV} / (~{PM}).sum(2).clamp_min(1)" in txt,
+    # decided on the expansion (temporaries forward-substituted): some quotient L / R of the function has
+    #   L = <cross entropy ...>.masked_fill(<padding mask>, 0.0).sum(2)   and   R = (~<padding mask>).sum(2).clamp_min(1)
+    from sa.inline import Inliner
+    inl = Inliner(f.node)
+    pmx = inl.text(masks[0].value) if masks else None
+    okavg = False
+    for n in own_nodes(f.node):
+        if not (isinstance(n, ast.BinOp) and isinstance(n.op, ast.Div)):
+            continue
+        L, R_ = inl.expand(n.left), inl.expand(n.right)
+        okL = isinstance(L, ast.Call) and isinstance(L.func, ast.Attribute) and L.func.attr == "sum" and [u(a_) for a_ in L.args] == ["2"] \
+            and isinstance(L.func.value, ast.Call) and isinstance(L.func.value.func, ast.Attribute) and L.func.value.func.attr == "masked_fill" \
+            and len(L.func.value.args) == 2 and u(L.func.value.args[0]) == pmx and u(L.func.value.args[1]) in ("0.0", "0") \
+            and "cross_entropy" in u(L.func.value.func.value)
+        rt = u(R_).replace(" ", "")
+        okR = pmx is not None and rt in (f"(~({pmx})).sum(2).clamp_min(1)".replace(" ", ""), f"(~({pmx})).sum(2).clamp(min=1)".replace(" ", ""),
+                                          f"(~({pmx})).sum(2).clamp(1)".replace(" ", ""))
+        okavg = okavg or (okL and okR)
+    col.ob("G16", "S2", f"{where}::average-over-target-set", PM is not None and LV is not None and okavg,
            "the per-prefix loss is not (sum over non-padding targets) / max(number of targets, 1)", rel, f.line)
     R_enum.g8_dispatch(pkg, res, col, f, "reduction", "S2", members=["mean", "sum", "none"], allow_else=0)
     # mean reduction: per-sequence average over its non-padding prefixes, i.e. both partial sums run over the
